@@ -19,7 +19,7 @@ DET_EVERY = 200
 RULE = ("1-8 stations registered in random order, then 1-25 add/remove/update/query operations with Currents built as "
         "expression trees (leaf forms str/list/dict/Series, +, -, k*a, a*k, a*=k, nested); non-trivial = history with "
         ">=1 remove or update and >=1 composed Current; distinct = distinct operation/expression-shape sequence")
-PROBES = ["composed_current", "scalar_multiple_operand", "remove", "update", "update_new_name", "rejected_unknown_station",
+PROBES = ["concurrent_callers", "thread_switches", "composed_current", "scalar_multiple_operand", "remove", "update", "update_new_name", "rejected_unknown_station",
           "rejected_unknown_name", "late_register_rejected", "subset_query_reordered", "time_subset_query", "time_window_permuted",
           "duplicate_name", "unnamed", "series_leaf", "json_restart", "plain_series_operand", "update_derived_from_old_row", "time_window_negative", "shared_operand_world", "late_register_existing_id", "name_collision_beyond_alias"]
 FAULT_DIMENSION = "restart (network saved to JSON and loaded mid-history); rejected operations (unknown station / unknown name / late register_evse); weakest sense in which the family applies"
@@ -480,6 +480,36 @@ def check(sc):
                             break
                     if bad:
                         break
+                    rt = sub(op["seed"], "threads")
+                    if rt.random() < 0.15:
+                        # two caller threads ask one network object different subset questions at the same time; the seed decides
+                        # the interleaving of their steps inside the library; each must get the rows and columns it gets alone
+                        from ..threads import Interleaver
+                        M2 = [[round(rt.uniform(0, 32), 2) for _ in range(T)] for _ in stations]
+                        sub2 = rt.sample(idx, rt.randint(1, len(idx)))
+                        lin2 = rt.random() < 0.5
+                        jobs = [lambda: np.array(nw.constraint_current(np.array(M), constraints=subset, time_indices=tsel, linear=op["linear"])),
+                                lambda: np.array(nw.constraint_current(np.array(M2), constraints=sub2, linear=lin2))]
+                        alone = [j_() for j_ in jobs]
+                        res_, info_ = Interleaver(sub(op["seed"], "interleave"), sut.in_repo).run(jobs)
+                        out.probe("concurrent_callers")
+                        out.probe("thread_switches", info_["switches"])
+                        for (kind_, val_), alone_, nm_ in zip(res_, alone, ("first", "second")):
+                            if kind_ == "exc":
+                                from ..driver import classify_exception
+                                if classify_exception(val_) == "harness":
+                                    raise val_
+                                out.add("C12/concurrent_callers", "op %d: two threads calling constraint_current on one network: %s: %s (interleaving %s)"
+                                        % (i, type(val_).__name__, str(val_)[:100], info_["order"][:30]))
+                                bad = True
+                                break
+                            if val_.shape != alone_.shape or not np.array_equal(val_, alone_):
+                                out.add("C12/concurrent_callers", "op %d: two threads calling constraint_current on one network (interleaving %s): the %s caller "
+                                        "got %s, alone it gets %s" % (i, info_["order"][:30], nm_, val_.tolist(), alone_.tolist()))
+                                bad = True
+                                break
+                        if bad:
+                            break
                     continue
                 changed = [(k_, dict(o_), sp_) for k_, (o_, sp_) in (_POOL[0] or {}).items()
                            if {a_: float(b_) for a_, b_ in dict(o_).items()} != {a_: float(b_) for a_, b_ in sp_.items()}]
